@@ -437,7 +437,7 @@ private theorem pointWF_map {α β : Type} (f : α → β) (isPt : Nat → Bool)
 def rawOf (fmt : Nat → List Nat) (compact : Bool) : Val → Raw
   | .str s => .str s
   | .int v => if compact then .int v else .str (showInt v)
-  | .dbl b => if compact then .flt (fmt b) else .str (fmt b)
+  | .dbl b => if compact && isFiniteBits b then .flt (fmt b) else .str (fmt b)
   | .bin d => .str (hexlify d)
 
 /-- the text of a double: `repr` round trips through `float()` and consists of printable, non-blank
@@ -500,7 +500,7 @@ private theorem toFloat_raw {fmt : Nat → List Nat} {parse : List Nat → Optio
     toFloat parse (rawOf fmt compact (.dbl b)) = .ok (.dbl b) := by
   have hs : stripNum (fmt b) = fmt b :=
     stripP_none _ _ (fun c hc => notSpace_of_printable c ⟨(ft.ascii b hb c hc).1, (ft.ascii b hb c hc).2.1⟩)
-  cases compact <;> simp [rawOf, toFloat, hs, ft.rt b hb]
+  cases compact <;> cases hf : isFiniteBits b <;> simp [rawOf, hf, toFloat, hs, ft.rt b hb]
 
 /-- typing a single tag gives back the value the writer formatted, in every text format -/
 theorem typeSingle_raw {fmt : Nat → List Nat} {parse : List Nat → Option Nat} {Fin : Nat → Prop}
@@ -667,8 +667,23 @@ private theorem asciiLoader_flat (fmt : Nat → List Nat) (fl : List (Nat × Val
 def AsciiWF (fmt : Nat → List Nat) (Fin : Nat → Prop) (ts : List (CTag Val)) : Prop :=
   PointWF isPoint ts ∧ (∀ t ∈ ts, TagTyped Fin t) ∧ ∀ p ∈ flatten ts, LineOK fmt p
 
-private theorem render_eq (fmt : Nat → List Nat) (ts : List (CTag Val)) :
-    render fmt ts = (flatten ts).flatMap fun p => renderTag fmt p.1 p.2 := rfl
+/-- on point-well-formed lists (2 or 3 coordinates) the writers see every coordinate -/
+theorem flattenW_eq {α : Type} (isPt : Nat → Bool) (ts : List (CTag α)) (hp : PointWF isPt ts) :
+    flattenW ts = flatten ts := by
+  have : ts.map trunc3 = ts := by
+    induction ts with
+    | nil => rfl
+    | cons t r ih =>
+      cases t with
+      | single c v => simp [trunc3, ih hp.2]
+      | point c xs =>
+        have h3 : xs.take 3 = xs := List.take_of_length_le (by rcases hp.2.1 with h | h <;> omega)
+        simp [trunc3, h3, ih hp.2.2.2]
+  unfold flattenW; rw [this]
+
+private theorem render_eq (fmt : Nat → List Nat) (ts : List (CTag Val)) (hp : PointWF isPoint ts) :
+    render fmt ts = (flatten ts).flatMap fun p => renderTag fmt p.1 p.2 := by
+  unfold render; rw [flattenW_eq isPoint ts hp]
 
 /-- ASCII round trip: `tag_compiler(ascii_tags_loader(stream))` on the text `TagWriter` wrote gives back
     the tag list — group codes through `"%3d"`/`int()`, ints, floats (bit pattern, by the float text
@@ -679,7 +694,7 @@ theorem ascii_tag_roundtrip {fmt : Nat → List Nat} {parse : List Nat → Optio
     asciiLoad parse (render fmt ts) = .ok ts := by
   obtain ⟨hp, ht, hl⟩ := h
   unfold asciiLoad
-  rw [render_eq, asciiLoader_flat fmt _ hl]
+  rw [render_eq fmt ts hp, asciiLoader_flat fmt _ hl]
   simp only [bind, Except.bind]
   have : (List.map (fun p => (p.1, Raw.str (valText fmt p.2))) (flatten ts)) =
       (flatten ts).map (fun p => (p.1, rawOf fmt false p.2)) := by
@@ -748,6 +763,13 @@ private theorem valText_int (v : Int) : ValText (showInt v) (.num (.int v)) := b
     token that `json.loads` reads as a float (it has a fraction or an exponent) -/
 def JsonFloatTok (fmt : Nat → List Nat) (Fin : Nat → Prop) : Prop :=
   ∀ b, Fin b → ∀ rest, StopC rest → scanNumber (fmt b ++ rest) = some (.flt (fmt b), rest)
+
+/-- the float-token assumption is only needed for the finite doubles (non-finite ones are written as strings) -/
+def JsonFloatTokF (fmt : Nat → List Nat) (Fin : Nat → Prop) : Prop :=
+  JsonFloatTok fmt (fun b => Fin b ∧ isFiniteBits b = true)
+
+theorem jsonFloatTokF_of (fmt : Nat → List Nat) (Fin : Nat → Prop) (h : JsonFloatTok fmt Fin) : JsonFloatTokF fmt Fin :=
+  fun b hb rest hs => h b hb.1 rest hs
 
 private theorem tok_head (fmt : Nat → List Nat) (Fin : Nat → Prop) (hj : JsonFloatTok fmt Fin) (b : Nat) (hb : Fin b) :
     ∃ c r, fmt b = c :: r ∧ c ≠ 34 ∧ c ≠ 91 ∧ isWs c = false := by
@@ -987,7 +1009,7 @@ theorem parseDoc_lines (ls : List JLine) (h : ∀ l ∈ ls, ValText l.vt l.jv) :
 def jvOf (fmt : Nat → List Nat) (compact : Bool) : Val → JVal
   | .str s => .str s
   | .int v => if compact then .num (.int v) else .str (showInt v)
-  | .dbl b => if compact then .num (.flt (fmt b)) else .str (fmt b)
+  | .dbl b => if compact && isFiniteBits b then .num (.flt (fmt b)) else .str (fmt b)
   | .bin d => .str (hexlify d)
 
 def lineOf (fmt : Nat → List Nat) (compact : Bool) (p : Nat × Val) : JLine :=
@@ -996,9 +1018,9 @@ def lineOf (fmt : Nat → List Nat) (compact : Bool) (p : Nat × Val) : JLine :=
 def linesOf (fmt : Nat → List Nat) (compact : Bool) : CTag Val → List JLine
   | .single c v => [lineOf fmt compact (c, v)]
   | .point c xs =>
-    if compact then
+    if compact && xs.all finiteVal then
       [⟨c, [91] ++ joinComma (xs.map (valText fmt)) ++ [93], .nums (xs.map fun x => Num.flt (valText fmt x))⟩]
-    else (flattenPt c xs 0).map (lineOf fmt false)
+    else (flattenPt c xs 0).map (lineOf fmt compact)
 
 /-- what the JSON formats need beyond the typing: no comment tag, no end-of-file marker inside the list
     (`write_tag2(0, "EOF")` closes the document), strings are Python strings without an adjacent
@@ -1035,7 +1057,7 @@ private theorem take3 {α : Type} (xs : List α) (h : xs.length = 2 ∨ xs.lengt
   apply List.take_of_length_le; omega
 
 private theorem valText_line {fmt : Nat → List Nat} {parse : List Nat → Option Nat} {Fin : Nat → Prop}
-    (ft : FloatText fmt parse Fin) (compact : Bool) (hj : compact = true → JsonFloatTok fmt Fin)
+    (ft : FloatText fmt parse Fin) (compact : Bool) (hj : compact = true → JsonFloatTokF fmt Fin)
     (c : Nat) (v : Val) (hc : ClsOK Fin c v) (hs : ∀ s, v = .str s → StrOK s ∧ NoSurrPair s) :
     ValText (jsonVal fmt compact v) (jvOf fmt compact v) := by
   cases v with
@@ -1048,7 +1070,15 @@ private theorem valText_line {fmt : Nat → List Nat} {parse : List Nat → Opti
       exact valText_string _ this.1 this.2
   | dbl b =>
     cases compact with
-    | true => exact valText_float fmt Fin (hj rfl) b hc.2.2
+    | true =>
+      cases hf : isFiniteBits b with
+      | true =>
+        have := valText_float fmt _ (hj rfl) b ⟨hc.2.2, hf⟩
+        simpa [jsonVal, jvOf, hf] using this
+      | false =>
+        have := ascii_str (fmt b) (fun x hx => by have := ft.ascii b hc.2.2 x hx; omega)
+        have := valText_string _ this.1 this.2
+        simpa [jsonVal, jvOf, hf] using this
     | false =>
       have := ascii_str (fmt b) (fun x hx => by have := ft.ascii b hc.2.2 x hx; omega)
       exact valText_string _ this.1 this.2
@@ -1088,9 +1118,31 @@ private theorem point_code_facts (c j : Nat) (h : isPoint c = true) (hj : j < 3)
     Bool.or_eq_false_iff, Bool.and_eq_false_iff, decide_eq_false_iff_not, beq_eq_false_iff_ne] at *
   omega
 
+/-- the single-tag lines of the components of a vertex -/
+private theorem flat_lines_valText {fmt : Nat → List Nat} {parse : List Nat → Option Nat} {Fin : Nat → Prop}
+    (ft : FloatText fmt parse Fin) (compact : Bool) (hj : compact = true → JsonFloatTokF fmt Fin)
+    (c : Nat) (xs : List Val) (hpt : isPoint c = true) (hl23 : xs.length = 2 ∨ xs.length = 3) (ht : PtOK Fin xs) :
+    ∀ l ∈ (flattenPt c xs 0).map (lineOf fmt compact), ValText l.vt l.jv := by
+  intro l hl
+  simp only [List.mem_map] at hl
+  obtain ⟨p, hp, hpl⟩ := hl
+  subst hpl
+  obtain ⟨hmem, j, _, hj3, hcode⟩ := flattenPt_mem c xs 0 p hp
+  obtain ⟨b, hb, hf⟩ := ht p.2 hmem
+  have hfacts := point_code_facts c j hpt (by omega)
+  have hcls : ClsOK Fin p.1 p.2 := by
+    rw [hb, hcode]; exact ⟨hfacts.2.2.1, hfacts.2.2.2, hf⟩
+  exact valText_line ft compact hj p.1 p.2 hcls (by intro s hs; rw [hb] at hs; cases hs)
+
+private theorem all_finite_bits (bs : List Nat) (h : (bs.map Val.dbl).all finiteVal = true) :
+    ∀ b ∈ bs, isFiniteBits b = true := by
+  intro b hb
+  simp only [List.all_eq_true, List.mem_map, forall_exists_index, and_imp, forall_apply_eq_imp_iff₂] at h
+  exact h b hb
+
 /-- all lines of a well-formed tag carry a value text `json.loads` understands -/
 private theorem linesOf_valText {fmt : Nat → List Nat} {parse : List Nat → Option Nat} {Fin : Nat → Prop}
-    (ft : FloatText fmt parse Fin) (compact : Bool) (hj : compact = true → JsonFloatTok fmt Fin)
+    (ft : FloatText fmt parse Fin) (compact : Bool) (hj : compact = true → JsonFloatTokF fmt Fin)
     (t : CTag Val) (ht : TagTyped Fin t) (hjt : JTagOK t)
     (hlen : ∀ c xs, t = .point c xs → isPoint c = true ∧ (xs.length = 2 ∨ xs.length = 3)) :
     ∀ l ∈ linesOf fmt compact t, ValText l.vt l.jv := by
@@ -1102,25 +1154,20 @@ private theorem linesOf_valText {fmt : Nat → List Nat} {parse : List Nat → O
     exact valText_line ft compact hj c v ht hjt.2.2
   | point c xs =>
     obtain ⟨hpt, hl23⟩ := hlen c xs rfl
-    obtain ⟨bs, hbs, hfin⟩ := ptOK_bits Fin xs ht
-    intro l hl
-    cases compact with
-    | true =>
-      simp only [linesOf, ↓reduceIte, List.mem_singleton] at hl
+    by_cases hlist : (compact && xs.all finiteVal) = true
+    · obtain ⟨bs, hbs, hfin⟩ := ptOK_bits Fin xs ht
+      intro l hl
+      simp only [linesOf, hlist, ↓reduceIte, List.mem_singleton] at hl
       subst hl
+      simp only [Bool.and_eq_true] at hlist
       have hne : bs ≠ [] := by
         intro h; subst h; subst hbs; simp at hl23
-      have := valText_point fmt Fin (hj rfl) bs hne hfin
+      have hfb := all_finite_bits bs (by rw [← hbs]; exact hlist.2)
+      have := valText_point fmt _ (hj hlist.1) bs hne (fun b hb => ⟨hfin b hb, hfb b hb⟩)
       simpa [hbs, valText, List.map_map, Function.comp_def] using this
-    | false =>
-      simp only [linesOf, Bool.false_eq_true, ↓reduceIte, List.mem_map] at hl
-      obtain ⟨p, hp, hpl⟩ := hl
-      subst hpl
-      obtain ⟨hmem, j, _, hj3, hcode⟩ := flattenPt_mem c xs 0 p hp
-      obtain ⟨b, hb, hf⟩ := ht p.2 hmem
-      have := ascii_str (fmt b) (fun x hx => by have := ft.ascii b hf x hx; omega)
-      simp only [lineOf, hb, jsonVal, jvOf, Bool.false_eq_true, ↓reduceIte]
-      exact valText_string _ this.1 this.2
+    · intro l hl
+      simp only [linesOf, hlist, Bool.false_eq_true, ↓reduceIte] at hl
+      exact flat_lines_valText ft compact hj c xs hpt hl23 ht l hl
 
 /-- the text `write_tag` produces is the text of the tag's lines -/
 private theorem jsonTag_lines (fmt : Nat → List Nat) (compact : Bool) (t : CTag Val) (hjt : JTagOK t)
@@ -1132,10 +1179,9 @@ private theorem jsonTag_lines (fmt : Nat → List Nat) (compact : Bool) (t : CTa
     simp [jsonTag, this, linesOf, lineOf, JLine.text]
   | point c xs =>
     have h3 := take3 xs (hlen c xs rfl)
-    cases compact with
-    | true => simp [jsonTag, linesOf, JLine.text, h3]
-    | false =>
-      simp only [jsonTag, Bool.false_eq_true, ↓reduceIte, h3, linesOf, List.flatMap_map]
+    by_cases hlist : (compact && xs.all finiteVal) = true
+    · simp [jsonTag, linesOf, JLine.text, h3, hlist]
+    · simp only [jsonTag, h3, hlist, Bool.false_eq_true, ↓reduceIte, linesOf, List.flatMap_map]
       rfl
 
 private theorem pointWF_len (ts : List (CTag Val)) (h : PointWF isPoint ts) :
@@ -1175,11 +1221,20 @@ private theorem jsonWrite_lines (fmt : Nat → List Nat) (Fin : Nat → Prop) (c
 
 private theorem jvalRaw_jvOf (fmt : Nat → List Nat) (compact : Bool) (v : Val) :
     jvalRaw (jvOf fmt compact v) = rawOf fmt compact v := by
-  cases v <;> cases compact <;> rfl
+  cases v with
+  | dbl b => cases compact <;> cases hf : isFiniteBits b <;> simp [jvOf, rawOf, hf, jvalRaw, numRaw]
+  | str s => cases compact <;> rfl
+  | int i => cases compact <;> rfl
+  | bin d => cases compact <;> rfl
 
 private theorem jvOf_not_nums (fmt : Nat → List Nat) (compact : Bool) (v : Val) :
     ∀ xs, jvOf fmt compact v ≠ .nums xs := by
-  intro xs; cases v <;> cases compact <;> simp [jvOf]
+  intro xs
+  cases v with
+  | dbl b => cases compact <;> cases hf : isFiniteBits b <;> simp [jvOf, hf]
+  | str s => cases compact <;> simp [jvOf]
+  | int i => cases compact <;> simp [jvOf]
+  | bin d => cases compact <;> simp [jvOf]
 
 /-- one ordinary line (no comment, not the EOF pair, not a list value) -/
 private theorem loader_line (fmt : Nat → List Nat) (compact : Bool) (c : Nat) (v : Val) (rest : List (Num × JVal))
@@ -1203,11 +1258,13 @@ private theorem loader_line (fmt : Nat → List Nat) (compact : Bool) (c : Nat) 
   rw [jvalRaw_jvOf] at this
   exact this
 
-private theorem coords_flt (fmt : Nat → List Nat) (c : Nat) (bs : List Nat) (i : Nat) :
+private theorem coords_flt (fmt : Nat → List Nat) (c : Nat) (bs : List Nat) (hf : ∀ b ∈ bs, isFiniteBits b = true)
+    (i : Nat) :
     coords c (bs.map fun b => Num.flt (fmt b)) i = flattenPt c (bs.map fun b => rawOf fmt true (.dbl b)) i := by
   induction bs generalizing i with
   | nil => rfl
-  | cons b r ih => simp [coords, flattenPt, numRaw, rawOf, ih]
+  | cons b r ih =>
+    simp [coords, flattenPt, numRaw, rawOf, hf b (by simp), ih (fun x hx => hf x (by simp [hx]))]
 
 private theorem except_map_comp {ε α : Type} (f g : α → α) (x : Except ε α) :
     f <$> (g <$> x) = (fun a => f (g a)) <$> x := by
@@ -1237,23 +1294,24 @@ private theorem loader_tag (fmt : Nat → List Nat) (Fin : Nat → Prop) (compac
   | point c xs =>
     obtain ⟨hpt, hl23⟩ := hlen c xs rfl
     obtain ⟨bs, hbs, hfin⟩ := ptOK_bits Fin xs ht
-    cases compact with
-    | true =>
-      have hnn : ¬ ((c : Int) < 0) := by omega
+    by_cases hlist : (compact && xs.all finiteVal) = true
+    · have hnn : ¬ ((c : Int) < 0) := by omega
+      have hct : compact = true := by simp only [Bool.and_eq_true] at hlist; exact hlist.1
+      have hfb := all_finite_bits bs (by rw [← hbs]; simp only [Bool.and_eq_true] at hlist; exact hlist.2)
+      subst hct
       subst hbs
-      simp only [linesOf, ↓reduceIte, List.map_cons, List.map_nil, List.cons_append, List.nil_append,
+      simp only [linesOf, hlist, ↓reduceIte, List.map_cons, List.map_nil, List.cons_append, List.nil_append,
         JLine.sem, jsonTagLoader, hnn, Int.toNat_natCast, hpt, flatten, List.append_nil, List.map_map]
       have e1 : (List.map ((fun x => Num.flt (valText fmt x)) ∘ Val.dbl) bs) = bs.map fun b => Num.flt (fmt b) := by
         apply List.map_congr_left; intro b _; rfl
-      rw [e1, coords_flt]
+      rw [e1, coords_flt fmt c bs hfb]
       have e2 : (flattenPt c (bs.map Val.dbl) 0).map (fun p => (p.1, rawOf fmt true p.2)) =
           flattenPt c (bs.map fun b => rawOf fmt true (.dbl b)) 0 := by
         rw [← flattenPt_map]; simp [List.map_map, Function.comp_def]
       rw [e2]
-    | false =>
-      simp only [linesOf, Bool.false_eq_true, ↓reduceIte, flatten, List.append_nil, List.map_map]
+    · simp only [linesOf, hlist, Bool.false_eq_true, ↓reduceIte, flatten, List.append_nil, List.map_map]
       -- every component line is an ordinary line
-      have hall : ∀ p ∈ flattenPt c xs 0, p.1 ≠ 999 ∧ ¬ (p.1 = 0 ∧ jvOf fmt false p.2 = .str sEOF) := by
+      have hall : ∀ p ∈ flattenPt c xs 0, p.1 ≠ 999 ∧ ¬ (p.1 = 0 ∧ jvOf fmt compact p.2 = .str sEOF) := by
         intro p hp
         obtain ⟨_, j, _, hj3, hcode⟩ := flattenPt_mem c xs 0 p hp
         have := point_code_facts c j hpt (by omega)
@@ -1265,8 +1323,8 @@ private theorem loader_tag (fmt : Nat → List Nat) (Fin : Nat → Prop) (compac
         have hp := hall p (by simp)
         have hr := ih (fun q hq => hall q (by simp [hq]))
         simp only [List.map_cons, List.cons_append, Function.comp_apply] at hr ⊢
-        have e : (lineOf fmt false p) = lineOf fmt false (p.1, p.2) := rfl
-        rw [e, loader_line fmt false p.1 p.2 _ hp.1 hp.2, hr, except_map_comp]
+        have e : (lineOf fmt compact p) = lineOf fmt compact (p.1, p.2) := rfl
+        rw [e, loader_line fmt compact p.1 p.2 _ hp.1 hp.2, hr, except_map_comp]
 
 private theorem flatten_append {α : Type} (a b : List (CTag α)) : flatten (a ++ b) = flatten a ++ flatten b := by
   induction a with
@@ -1314,9 +1372,10 @@ private theorem pointWF_snoc_single {α : Type} (isPt : Nat → Bool) (ts : List
     surrogates unchanged, ints of ANY size, floats by the float text assumption, binary data through its
     hex text, 2D/3D points with their dimension.  Hypotheses: `JsonWF` (typing, `PointWF`, no comment
     tag, no inner EOF marker, no adjacent surrogate pair) and, for the compact format only, that
-    `repr(float)` is a JSON float token. -/
+    `repr(float)` of every FINITE double is a JSON float token (`inf`/`nan` are written as strings since
+    the fix of F28 and read back through `float()`). -/
 theorem json_tag_roundtrip {fmt : Nat → List Nat} {parse : List Nat → Option Nat} {Fin : Nat → Prop}
-    (ft : FloatText fmt parse Fin) (compact : Bool) (hj : compact = true → JsonFloatTok fmt Fin)
+    (ft : FloatText fmt parse Fin) (compact : Bool) (hj : compact = true → JsonFloatTokF fmt Fin)
     (ts : List (CTag Val)) (h : JsonWF Fin ts) :
     jsonLoad parse (jsonWrite fmt compact ts) = .ok (ts ++ [eofTag]) := by
   have hl := pointWF_len ts h.1
@@ -1698,7 +1757,7 @@ theorem recover_loader_agrees {fmt : Nat → List Nat} {parse : List Nat → Opt
     intro s hs
     have hmem := flatten_str_mem Fin ts ht p hpm s hs
     exact hrec _ hmem s rfl
-  rw [render_eq, bytesLoader_flat fmt _ hfl]
+  rw [render_eq fmt ts hp, bytesLoader_flat fmt _ hfl]
   simp only [bind, Except.bind]
   have e : (flatten ts).map (fun p => (p.1, Raw.str (valText fmt p.2))) =
       flatten (ts.map (mapT fun v => Raw.str (valText fmt v))) :=
@@ -2064,7 +2123,7 @@ theorem internal_tag_roundtrip {fmt : Nat → List Nat} {parse : List Nat → Op
       obtain ⟨c, vt, rest, hf, _⟩ := flatten_lines_head fmt t r hp
       intro h0; rw [h0] at hf; simp at hf
   unfold internalLoad
-  rw [render_eq, internalLines_render fmt _ hfl hl]
+  rw [render_eq fmt ts hp, internalLines_render fmt _ hfl hl]
   exact internalGo_lines ft ts hp ht
 
 #guard okEq (internalLoad toyParse (render toyFmt [.single 999 (.str [0x2028, 0x85, 12, 28]), .single 0 (.str [32, 88, 32]),
@@ -2118,7 +2177,7 @@ theorem recover_crlf_roundtrip {fmt : Nat → List Nat} {parse : List Nat → Op
     unfold recoverLoad at hlf ⊢
     rw [hs]; exact hlf
   have hnl : ∀ p ∈ flatten ts, ∀ c ∈ valText fmt p.2, c ≠ 10 := fun p hp => (hl p hp).1
-  rw [render_eq, toCRLF_render fmt _ hnl]
+  rw [render_eq fmt ts hp, toCRLF_render fmt _ hnl]
   have hfl : ∀ p ∈ flatten ts, LineOK fmt p ∧ ∀ c ∈ valText fmt p.2, c ≠ 13 := fun p hp => ⟨hl p hp, hcr p hp⟩
   generalize flatten ts = fl at hfl
   clear hlf hnl hl hcr hrec ht hp
@@ -2226,7 +2285,7 @@ theorem ascii_tag_general {fmt : Nat → List Nat} {parse : List Nat → Option 
     (hl : ∀ p ∈ flatten ts, LineOK fmt p) :
     asciiLoad parse (render fmt ts) = .ok (ts.map norm0T) := by
   unfold asciiLoad
-  rw [render_eq, asciiLoader_flat fmt _ hl]
+  rw [render_eq fmt ts hp, asciiLoader_flat fmt _ hl]
   simp only [bind, Except.bind]
   have e : (List.map (fun p => (p.1, Raw.str (valText fmt p.2))) (flatten ts)) =
       (flatten ts).map (fun p => (p.1, rawOf fmt false p.2)) := by
@@ -2915,5 +2974,397 @@ theorem group_tags_lossless {α : Type} (isSplit : α → Bool) (t : α) (r : Li
   simp [List.dropWhile, h]
 
 #guard groupTags (fun c : Nat => c == 0) [5, 0, 1, 2, 0, 0, 3] == [[0, 1, 2], [0], [0, 3]]
+
+/-! ## whole files, all formats: every format decodes to the SAME typed tag list -/
+
+/-- `ascii_tag_roundtrip` under the name the design uses for the file-level statement -/
+theorem ascii_file_roundtrip {fmt : Nat → List Nat} {parse : List Nat → Option Nat} {Fin : Nat → Prop}
+    (ft : FloatText fmt parse Fin) (ts : List (CTag Val)) (h : AsciiWF fmt Fin ts) :
+    asciiLoad parse (render fmt ts) = .ok ts := ascii_tag_roundtrip ft ts h
+
+/-- one tag is written to non-empty bytes and read back, whatever follows -/
+def TagRT (r12 : Bool) (t : BTag) : Prop :=
+  ∃ bs, encTag r12 t = .ok bs ∧ bs ≠ [] ∧ ∀ rest, decTag r12 (bs ++ rest) = .ok (t, rest)
+
+private theorem tagRT_of_ok (r12 : Bool) (t : BTag) (h : TagOK' t) : TagRT r12 t := by
+  obtain ⟨bs, he, hd0⟩ := bin_tag_roundtrip_all r12 t [] h.1 h.2
+  refine ⟨bs, he, ?_, ?_⟩
+  · intro hnil
+    rw [hnil] at hd0
+    simp [decTag, decCode, bind, Except.bind] at hd0
+  · intro rest
+    obtain ⟨bs', he', hd⟩ := bin_tag_roundtrip_all r12 t rest h.1 h.2
+    rw [he] at he'; cases he'; exact hd
+
+private theorem binChunks_short (d : List Nat) (h : d.length ≤ 127) : binChunks d = [d] := by
+  unfold binChunks
+  split
+  · rename_i he; subst he; rfl
+  · rename_i hne
+    rw [chunks]
+    simp only [hne, ↓reduceDIte]
+    have h1 : d.take 127 = d := List.take_of_length_le h
+    have h2 : d.drop 127 = [] := List.drop_of_length_le h
+    rw [h1, h2, chunks]; simp
+
+private theorem tagRT_of_bin (r12 : Bool) (code : Nat) (d : List Nat) (hcls : writerCls code = .binary)
+    (hc : code < 65536) (hl : d.length ≤ 127) : TagRT r12 ⟨code, .bin d⟩ := by
+  refine ⟨chunkBytes r12 code d, ?_, by simp [chunkBytes, leBytes], ?_⟩
+  · simp only [encTag, hcls, hc, ↓reduceIte, binChunks_short d hl, List.flatMap_cons, List.flatMap_nil,
+      List.append_nil]
+    rfl
+  · intro rest
+    have := bin_chunk_roundtrip_all r12 code d rest hcls hc (by omega)
+    simpa [chunkBytes] using this
+
+/-- whole tag lists through the binary writer and loader, single-chunk binary data included -/
+theorem bin_list_roundtrip (r12 : Bool) (ts : List BTag) (h : ∀ t ∈ ts, TagRT r12 t) :
+    ∃ bs, encAll r12 ts = .ok bs ∧ ts.length ≤ bs.length ∧
+      ∀ fuel, ts.length < fuel → decAll r12 fuel bs = .ok ts := by
+  induction ts with
+  | nil =>
+    refine ⟨[], rfl, by simp, ?_⟩
+    intro fuel hf
+    cases fuel with
+    | zero => omega
+    | succ k => simp [decAll]
+  | cons t r ih =>
+    obtain ⟨bt, hbt, hne, hdt⟩ := h t (by simp)
+    obtain ⟨br, hbr, hlen, hdr⟩ := ih (fun x hx => h x (by simp [hx]))
+    have hpos : 0 < bt.length := List.length_pos_iff.mpr hne
+    refine ⟨bt ++ br, by simp [encAll, hbt, hbr, bind, Except.bind], by simp; omega, ?_⟩
+    intro fuel hf
+    cases fuel with
+    | zero => omega
+    | succ k =>
+      have hne' : (bt ++ br).isEmpty = false := by
+        cases bt with
+        | nil => exact absurd rfl hne
+        | cons a b => rfl
+      simp only [decAll, hne', Bool.false_eq_true, ↓reduceIte, hdt br, bind, Except.bind]
+      rw [hdr k (by simp at hf; omega)]
+
+/-- what the binary format needs per flattened tag beyond the typing: a framable group code, an integer
+    within the width of its class, a string the text codec round trips without producing a NUL byte
+    (C09's subject, here a hypothesis on `enc`/`dec`), a double bit pattern, binary data of one chunk
+    (longer payloads come back as several chunk tags: `bin_data_roundtrip`) -/
+def BinOK (enc dec : List Nat → List Nat) (p : Nat × Val) : Prop :=
+  p.1 < 65536 ∧
+  match p.2 with
+  | .bin d => writerCls p.1 = .binary ∧ d.length ≤ 127
+  | .str s => ValWF ⟨p.1, .str (enc s)⟩ ∧ dec (enc s) = s
+  | v => ValWF ⟨p.1, v⟩
+
+private theorem typeAllV_id (Fin : Nat → Prop) (ts : List (CTag Val)) (h : ∀ t ∈ ts, TagTyped Fin t) :
+    typeAllV ts = .ok ts := by
+  induction ts with
+  | nil => rfl
+  | cons t r ih =>
+    have hr := ih (fun y hy => h y (by simp [hy]))
+    have ht := h t (by simp)
+    cases t with
+    | single c v =>
+      have : typeSingleV c v = .ok v := by
+        cases v with
+        | bin d => simp [typeSingleV, ht.1]
+        | dbl b => simp [typeSingleV, ht.1, ht.2.1]
+        | int i => simp [typeSingleV, ht.1, ht.2.1, ht.2.2]
+        | str s =>
+          obtain ⟨h1, h2, h3, h4⟩ := ht
+          simp only [typeSingleV, h1, h2, h3, Bool.false_eq_true, ↓reduceIte]
+          by_cases hc : c = 0
+          · simp [hc, h4 hc]
+          · simp [hc]
+      simp only [typeAllV, typeTagV, this, hr, bind, Except.bind, Functor.map, Except.map]
+    | point c xs =>
+      have : typePointV xs = .ok xs := by
+        clear hr ih h
+        induction xs with
+        | nil => rfl
+        | cons x q ihq =>
+          obtain ⟨b, hb, _⟩ := ht x (by simp)
+          subst hb
+          simp only [typePointV, ihq (fun y hy => ht y (by simp [hy])), Functor.map, Except.map]
+      simp only [typeAllV, typeTagV, this, hr, bind, Except.bind, Functor.map, Except.map]
+
+/-- **binary file round trip at the level of compiled tags**, both group-code widths: the bytes
+    `BinaryTagWriter` writes for a tag list are read back by `tag_compiler(binary_tags_loader(data))`
+    as the same list (points reassembled, strings through the text codec, ints within their width) -/
+theorem binary_file_roundtrip_all (Fin : Nat → Prop) (r12 : Bool) (enc dec : List Nat → List Nat)
+    (ts : List (CTag Val)) (hp : PointWF isPoint ts) (ht : ∀ t ∈ ts, TagTyped Fin t)
+    (hb : ∀ p ∈ flatten ts, BinOK enc dec p) :
+    ∃ bs, binWrite r12 enc ts = .ok bs ∧ binLoad r12 dec bs = .ok ts := by
+  have hrt : ∀ t ∈ (flatten ts).map (fun p => (⟨p.1, encV enc p.2⟩ : BTag)), TagRT r12 t := by
+    intro t htm
+    simp only [List.mem_map] at htm
+    obtain ⟨p, hpm, rfl⟩ := htm
+    obtain ⟨hc, hv⟩ := hb p hpm
+    cases hq : p.2 with
+    | bin d => rw [hq] at hv; exact tagRT_of_bin r12 p.1 d hv.1 hc hv.2
+    | str s => rw [hq] at hv; exact tagRT_of_ok r12 _ ⟨hc, hv.1⟩
+    | int i => rw [hq] at hv; exact tagRT_of_ok r12 _ ⟨hc, hv⟩
+    | dbl b => rw [hq] at hv; exact tagRT_of_ok r12 _ ⟨hc, hv⟩
+  obtain ⟨bs, he, hlen, hd⟩ := bin_list_roundtrip r12 _ hrt
+  refine ⟨bs, by unfold binWrite; rw [flattenW_eq isPoint ts hp]; exact he, ?_⟩
+  unfold binLoad
+  rw [hd (bs.length + 1) (by omega)]
+  have e : ((flatten ts).map (fun p => (⟨p.1, encV enc p.2⟩ : BTag))).map (fun t => (t.code, decV dec t.val)) =
+      flatten ts := by
+    rw [List.map_map]
+    conv => rhs; rw [← List.map_id (flatten ts)]
+    apply List.map_congr_left
+    intro p hpm
+    obtain ⟨_, hv⟩ := hb p hpm
+    obtain ⟨c, v⟩ := p
+    cases v with
+    | str s => simp only at hv; simp [encV, decV, hv.2]
+    | _ => simp [encV, decV]
+  simp only [e, points_roundtrip isPoint ts hp]
+  exact typeAllV_id Fin ts ht
+
+/-- well-formedness for ALL formats at once -/
+def AllWF (fmt : Nat → List Nat) (Fin : Nat → Prop) (enc dec : List Nat → List Nat) (ts : List (CTag Val)) : Prop :=
+  ts ≠ [] ∧ AsciiWF fmt Fin ts ∧ (∀ t ∈ ts, JTagOK t) ∧ ∀ p ∈ flatten ts, BinOK enc dec p
+
+private theorem internalWF_of_asciiWF (fmt : Nat → List Nat) (Fin : Nat → Prop) (ts : List (CTag Val))
+    (hne : ts ≠ []) (h : AsciiWF fmt Fin ts) : InternalWF fmt Fin ts := by
+  obtain ⟨hp, ht, hl⟩ := h
+  refine ⟨hne, hp, ?_, fun p hpm => (hl p hpm).1⟩
+  intro t htm
+  have := ht t htm
+  cases t with
+  | single c v =>
+    cases v with
+    | bin d => exact this
+    | dbl b => exact this
+    | int i => exact this
+    | str s => exact ⟨this.1, this.2.1, this.2.2.1⟩
+  | point c xs => exact this
+
+/-- **formats agree**: for every tag list that is well-formed for all formats, the ASCII text read by
+    `ascii_tags_loader + tag_compiler`, the same text read by `internal_tag_compiler`, the binary bytes of
+    BOTH group-code widths read by `binary_tags_loader + tag_compiler`, and the JSON documents of BOTH
+    modes read by `json.loads + json_tag_loader + tag_compiler` all decode to the SAME typed tag list
+    (the JSON protocol appends its EOF tag) — `replicas_agree` at file level -/
+theorem formats_agree {fmt : Nat → List Nat} {parse : List Nat → Option Nat} {Fin : Nat → Prop}
+    (ft : FloatText fmt parse Fin) (hj : JsonFloatTokF fmt Fin) (enc dec : List Nat → List Nat)
+    (ts : List (CTag Val)) (h : AllWF fmt Fin enc dec ts) :
+    asciiLoad parse (render fmt ts) = .ok ts ∧
+    internalLoad parse (render fmt ts) = .ok ts ∧
+    (∀ r12, ∃ bs, binWrite r12 enc ts = .ok bs ∧ binLoad r12 dec bs = .ok ts) ∧
+    (∀ compact, jsonLoad parse (jsonWrite fmt compact ts) = .ok (ts ++ [eofTag])) := by
+  obtain ⟨hne, ha, hjt, hb⟩ := h
+  refine ⟨ascii_tag_roundtrip ft ts ha, internal_tag_roundtrip ft ts (internalWF_of_asciiWF fmt Fin ts hne ha), ?_, ?_⟩
+  · intro r12
+    exact binary_file_roundtrip_all Fin r12 enc dec ts ha.1 ha.2.1 hb
+  · intro compact
+    exact json_tag_roundtrip ft compact (fun _ => hj) ts ⟨ha.1, ha.2.1, hjt⟩
+
+-- non-vacuity: identity text codec on an ASCII sample
+def sampleAll : List (CTag Val) :=
+  [.single 0 (.str [76, 73, 78, 69]), .single 1 (.str [32, 34, 92, 9, 65, 32]), .single 70 (.int (-5)),
+   .single 160 (.int (2 ^ 62)), .single 40 (.dbl 7), .single 310 (.bin [0, 255]), .point 10 [.dbl 1, .dbl 2, .dbl 3],
+   .point 11 [.dbl 4, .dbl 5]]
+#guard okEq (binLoad true id (match binWrite true id sampleAll with | .ok b => b | .error _ => [])) sampleAll
+#guard okEq (binLoad false id (match binWrite false id sampleAll with | .ok b => b | .error _ => [])) sampleAll
+#guard okEq (asciiLoad toyParse (render toyFmt sampleAll)) sampleAll && okEq (internalLoad toyParse (render toyFmt sampleAll)) sampleAll
+#guard okEq (jsonLoad toyParse (jsonWrite toyFmt true sampleAll)) (sampleAll ++ [eofTag])
+
+/-! ## 2D / 3D vertices through every format; integers outside the width of their class -/
+
+/-- every writer drops the coordinates of a vertex beyond the third (`DXFVertex.dxftags()` zips the values
+    with three codes): a 4-coordinate vertex is written exactly like its first three coordinates, in the
+    ASCII, binary and JSON formats alike — and by `formats_agree` the 2D or 3D vertex written is read back
+    with its dimension by every loader -/
+theorem vertex_extra_coordinates_dropped (fmt : Nat → List Nat) (enc : List Nat → List Nat) (c : Nat)
+    (x y z : Val) (more : List Val) (r : List (CTag Val)) :
+    render fmt (.point c (x :: y :: z :: more) :: r) = render fmt (.point c [x, y, z] :: r) ∧
+    (∀ r12, binWrite r12 enc (.point c (x :: y :: z :: more) :: r) = binWrite r12 enc (.point c [x, y, z] :: r)) ∧
+    (∀ compact, jsonWrite fmt compact (.point c (x :: y :: z :: more) :: r) =
+      jsonWrite fmt compact (.point c [x, y, z] :: r)) := by
+  refine ⟨?_, ?_, ?_⟩
+  · simp [render, flattenW, trunc3]
+  · intro r12; simp [binWrite, flattenW, trunc3]
+  · intro compact; cases compact <;> simp [jsonWrite, jsonTag]
+
+/-- a single int tag is well-formed for the ASCII format whatever its size -/
+private theorem asciiWF_int (fmt : Nat → List Nat) (Fin : Nat → Prop) (c : Nat) (i : Int)
+    (hb : isBinary c = false) (hd : isDouble c = false) (hi : isIntCode c = true) :
+    AsciiWF fmt Fin [.single c (.int i)] := by
+  have hpt : isPoint c = false := by
+    cases h : isPoint c
+    · rfl
+    · have := (point_codes_facts c h).2.2.1; rw [hd] at this; cases this
+  have hc : c ≠ 999 ∧ c ≠ 0 := by
+    simp only [isIntCode, isBytes, isInt16, isInt32, isInt64, inR, Bool.or_eq_true, Bool.and_eq_true,
+      decide_eq_true_eq, beq_iff_eq] at hi
+    omega
+  refine ⟨⟨hpt, trivial⟩, ?_, ?_⟩
+  · intro t ht; simp at ht; subst ht; exact ⟨hb, hd, hi⟩
+  · intro p hp
+    simp [flatten] at hp; subst hp
+    refine ⟨?_, hc.1, fun h => hc.2 h.1⟩
+    intro x hx
+    rcases showInt_chars i x hx with h | h
+    · omega
+    · simp [isDig] at h; omega
+
+/-- **asymmetry between the writers for integers outside the width of their class**: `TagWriter` (and
+    `JSONTagWriter`) write ANY Python int for a 8/16/32/64-bit group code (`"%s" % value`, no range check)
+    and the loaders read it back, while `BinaryTagWriter` raises OverflowError (`int.to_bytes`) — the text
+    formats accept tag lists the binary format cannot represent -/
+theorem int_range_asymmetry (fmt : Nat → List Nat) (parse : List Nat → Option Nat)
+    (enc : List Nat → List Nat) (c : Nat) (i : Int)
+    (hb : isBinary c = false) (hd : isDouble c = false) (hi : isIntCode c = true)
+    (hout : ¬ ValWF ⟨c, .int i⟩) :
+    asciiLoad parse (render fmt [.single c (.int i)]) = .ok [.single c (.int i)] ∧
+    (∀ compact, jsonLoad parse (jsonWrite fmt compact [.single c (.int i)]) = .ok [.single c (.int i), eofTag]) ∧
+    ∀ r12, binWrite r12 enc [.single c (.int i)] = .error .overflowError := by
+  -- no double occurs in the list: the float text is irrelevant (instantiate it with the empty domain)
+  have ft0 : FloatText fmt parse (fun _ => False) := ⟨fun _ h => h.elim, fun _ h => h.elim, fun _ h => h.elim⟩
+  have hwf := asciiWF_int fmt (fun _ => False) c i hb hd hi
+  have hc65 : c < 65536 := by
+    simp only [isIntCode, isBytes, isInt16, isInt32, isInt64, inR, Bool.or_eq_true, Bool.and_eq_true,
+      decide_eq_true_eq, beq_iff_eq] at hi
+    omega
+  refine ⟨ascii_tag_roundtrip ft0 _ hwf, ?_, ?_⟩
+  · intro compact
+    have hj : JsonWF (fun _ => False) [.single c (.int i)] := by
+      refine ⟨hwf.1, hwf.2.1, ?_⟩
+      intro t ht; simp at ht; subst ht
+      have := (hwf.2.2 (c, .int i) (by simp [flatten])).2
+      exact ⟨this.1, (fun h => by cases h.2), (fun s hs => by cases hs)⟩
+    have := json_tag_roundtrip ft0 compact (fun _ => fun _ h => h.1.elim) [.single c (.int i)] hj
+    simpa using this
+  · intro r12
+    have henc : ∃ cb, encCode r12 c = .ok cb := by
+      obtain ⟨cb, h, _⟩ := code_framing_all r12 c [] hc65
+      exact ⟨cb, h⟩
+    obtain ⟨cb, hcb⟩ := henc
+    simp only [binWrite, flattenW, List.map_cons, List.map_nil, trunc3, flatten, encV, encAll, bind, Except.bind]
+    have hcls : writerCls c = .bytes ∨ writerCls c = .int16 ∨ writerCls c = .int32 ∨ writerCls c = .int64 := by
+      unfold writerCls
+      simp only [isIntCode, Bool.or_eq_true] at hi
+      simp only [hb, hd, Bool.false_eq_true, ↓reduceIte]
+      by_cases h1 : isBytes c = true
+      · simp [h1]
+      · by_cases h2 : isInt16 c = true
+        · simp [h1, h2]
+        · by_cases h3 : isInt32 c = true
+          · simp [h1, h2, h3]
+          · have h4 : isInt64 c = true := by
+              rcases hi with ((h | h) | h) | h
+              · exact absurd h h1
+              · exact absurd h h2
+              · exact absurd h h3
+              · exact h
+            simp [h1, h2, h3, h4]
+    unfold ValWF at hout
+    rcases hcls with h | h | h | h <;> simp only [h] at hout
+    · have hout' : ¬ (0 ≤ i ∧ i < 256) := hout
+      simp [encTag, h, hcb, encByte, hout', bind, Except.bind]
+    · have hout' : ¬ (-32768 ≤ i ∧ i < 32768) := by simpa using hout
+      simp [encTag, h, hcb, encSigned, hout', bind, Except.bind]
+    · have hout' : ¬ (-2147483648 ≤ i ∧ i < 2147483648) := by simpa using hout
+      simp [encTag, h, hcb, encSigned, hout', bind, Except.bind]
+    · have hout' : ¬ (-9223372036854775808 ≤ i ∧ i < 9223372036854775808) := by simpa using hout
+      simp [encTag, h, hcb, encSigned, hout', bind, Except.bind]
+
+-- the counterexample: (70, 40000) is no 16-bit value
+example : ¬ ValWF ⟨70, .int 40000⟩ := by
+  have h : writerCls 70 = .int16 := by decide
+  simp only [ValWF, h]; omega
+#guard okEq (asciiLoad toyParse (render toyFmt [.single 70 (.int 40000)])) [.single 70 (.int 40000)]
+#guard (match binWrite true id [.single 70 (.int 40000)] with | .error .overflowError => true | _ => false)
+#guard (match binWrite false id [.single 70 (.int 40000)] with | .error .overflowError => true | _ => false)
+-- a vertex with four coordinates is written as its first three
+#guard render toyFmt [.point 10 [.dbl 1, .dbl 2, .dbl 3, .dbl 4]] == render toyFmt [.point 10 [.dbl 1, .dbl 2, .dbl 3]]
+
+/-! ## the float text assumption as a decidable per-literal check -/
+
+/-- the doubles whose `repr` text passes the two decidable checks: `float(text)` (model `parseFloat`:
+    correctly rounded decimal -> binary64) gives back the bit pattern and the text is printable ASCII
+    (`floatLitOK`), and the text is one JSON float token (`isFloatLit`) -/
+def FinChk (fmt : Nat → List Nat) (b : Nat) : Prop :=
+  floatLitOK b (fmt b) = true ∧ (isFiniteBits b = true → isFloatLit (fmt b) = true)
+
+/-- with `float()` modelled, `FloatText` and `JsonFloatTok` hold UNCONDITIONALLY on the doubles that pass
+    the per-literal checks: what stays an assumption is only that CPython's `repr(x)` passes them for every
+    finite double (evaluated for a large stratified sample on every run, X22) and that `parseFloat` is
+    CPython's `float()` (corresponded on the same sample, halfway and boundary cases included) -/
+theorem floatText_checked (fmt : Nat → List Nat) :
+    FloatText fmt parseFloat (FinChk fmt) ∧ JsonFloatTokF fmt (FinChk fmt) := by
+  constructor
+  · refine ⟨?_, ?_, ?_⟩
+    · intro b hb
+      have := hb.1
+      simp only [floatLitOK, Bool.and_eq_true, beq_iff_eq] at this
+      exact this.1.1
+    · intro b hb c hc
+      have := hb.1
+      simp only [floatLitOK, Bool.and_eq_true, List.all_eq_true, decide_eq_true_eq, bne_iff_ne, ne_eq] at this
+      have := this.1.2 c hc
+      exact ⟨this.1.1.1, this.1.1.2, this.1.2, this.2⟩
+    · intro b hb h
+      have := hb.1
+      simp [floatLitOK, h] at this
+  · exact jsonFloatTok_of_isFloatLit fmt _ (fun b hb => hb.1.2 hb.2)
+
+/-- `formats_agree` with both float assumptions discharged by the per-literal checks -/
+theorem formats_agree_checked (fmt : Nat → List Nat) (enc dec : List Nat → List Nat)
+    (ts : List (CTag Val)) (h : AllWF fmt (FinChk fmt) enc dec ts) :
+    asciiLoad parseFloat (render fmt ts) = .ok ts ∧
+    internalLoad parseFloat (render fmt ts) = .ok ts ∧
+    (∀ r12, ∃ bs, binWrite r12 enc ts = .ok bs ∧ binLoad r12 dec bs = .ok ts) ∧
+    (∀ compact, jsonLoad parseFloat (jsonWrite fmt compact ts) = .ok (ts ++ [eofTag])) :=
+  formats_agree (floatText_checked fmt).1 (floatText_checked fmt).2 enc dec ts h
+
+#guard floatLitOK 4591870180066957722 ("0.1".toList.map Char.toNat)
+#guard floatLitOK 1 ("5e-324".toList.map Char.toNat) && floatLitOK (2 ^ 63) ("-0.0".toList.map Char.toNat)
+#guard floatLitOK 4936209963552724370 ("1e+22".toList.map Char.toNat)
+#guard parseFloat ("9007199254740993".toList.map Char.toNat) == some 4845873199050653696   -- halfway: ties to even
+#guard !floatLitOK 4591870180066957722 ("0.10000000000000002".toList.map Char.toNat)
+
+-- non-vacuity of `AllWF` (hypothesis of `formats_agree`): string with a leading blank, negative int, 2D point at the end
+def tinyAll : List (CTag Val) := [.single 1 (.str [32, 65]), .single 70 (.int (-5)), .point 10 [.dbl 1, .dbl 2]]
+
+example : AllWF toyFmt (fun _ => True) id id tinyAll := by
+  have h1 : writerCls 1 = .str := by decide
+  have h70 : writerCls 70 = .int16 := by decide
+  have h10 : writerCls 10 = .double := by decide
+  have h20 : writerCls 20 = .double := by decide
+  refine ⟨by simp [tinyAll], ⟨?_, ?_, ?_⟩, ?_, ?_⟩
+  · simp [tinyAll, PointWF, isPoint, inR]
+  · intro t ht
+    simp only [tinyAll, List.mem_cons, List.not_mem_nil, or_false] at ht
+    rcases ht with h | h | h <;> subst h
+    · exact ⟨by decide, by decide, by decide, by decide⟩
+    · exact ⟨by decide, by decide, by decide⟩
+    · intro x hx; simp at hx; rcases hx with h | h <;> exact ⟨_, h, trivial⟩
+  · intro p hp
+    simp only [tinyAll, flatten, flattenPt, List.mem_cons, List.not_mem_nil, or_false, List.cons_append,
+      List.nil_append] at hp
+    rcases hp with h | h | h | h <;> subst h <;>
+      simp [LineOK, valText, toyFmt, natDigits, digitChar, showInt, sEOF]
+  · intro t ht
+    simp only [tinyAll, List.mem_cons, List.not_mem_nil, or_false] at ht
+    rcases ht with h | h | h <;> subst h
+    · refine ⟨by decide, by simp [sEOF], ?_⟩
+      intro s hs; cases hs
+      exact ⟨by intro c hc; simp at hc; omega, by simp [NoSurrPair, isHi]⟩
+    · exact ⟨by decide, by simp, by intro s hs; cases hs⟩
+    · trivial
+  · intro p hp
+    simp only [tinyAll, flatten, flattenPt, List.mem_cons, List.not_mem_nil, or_false, List.cons_append,
+      List.nil_append] at hp
+    rcases hp with h | h | h | h <;> subst h
+    · refine ⟨by decide, ?_, rfl⟩
+      simp only [ValWF, h1, id]; intro b hb; simp at hb; omega
+    · refine ⟨by decide, ?_⟩
+      simp only [ValWF, h70]; omega
+    · refine ⟨by decide, ?_⟩
+      simp only [ValWF, h10]; decide
+    · refine ⟨by decide, ?_⟩
+      simp only [ValWF, h20]; decide
 
 end EzdxfVerif.Props.C03Text
